@@ -234,6 +234,9 @@ class SimFS:
 
     # -- open --------------------------------------------------------------------------------
     def open(self, path, mode='r', buffering=-1, *args, **kwargs):
+        if not isinstance(path, (str, int)) and hasattr(path, '__fspath__'):
+            import os as _os
+            path = _os.fspath(path)              # pathlib.Path and friends
         if not (isinstance(path, str) and path.startswith(PREFIX)):
             return _real_open(path, mode, buffering, *args, **kwargs)
         if 'b' not in mode:
@@ -283,6 +286,25 @@ class SimFS:
         self.apilog.append((self._next_seq(), path, hid, mode, 'open', 0, 0, b'', _thread_name()))
         self.open_handles.append(h)
         return h
+
+    def real_copy(self, path):
+        """An unnamed-on-exit temporary file holding the current image of a simulated path, for consumers that open
+        files by name outside every seam (numpy.fromfile / numpy.memmap given a path).  Read only."""
+        import tempfile
+        f = tempfile.NamedTemporaryFile(prefix='verif_copy_', delete=True)
+        f.write(bytes(self.files[path]))
+        f.flush()
+        self._copies = getattr(self, '_copies', [])
+        self._copies.append(f)
+        return f.name
+
+    def drop_copies(self):
+        for f in getattr(self, '_copies', []):
+            try:
+                f.close()
+            except Exception:
+                pass
+        self._copies = []
 
     # -- crash images --------------------------------------------------------------------------
     def os_writes(self, path):
